@@ -55,6 +55,24 @@ def s19_region(item):
     return any(walk(d[2]) for d in decls if d[0] != "in")
 
 
+def s9_region(item):
+    """known finding S9: with optimisation, a condition folded to a constant by ConstantPropagation is not
+    rewired to the entity whose .enable consumes it (property writes are skipped by _update_references)"""
+    if not item.opts.get("optimize", True) or not item.entities:
+        return False
+    kinds = [d[0] for d in item.decls]
+
+    def const(e):
+        if e[0] == "int":
+            return True
+        if e[0] == "var":
+            return kinds[e[1]] == "int"
+        return all(const(x) for x in e[1:] if isinstance(x, tuple))
+
+    return any(en.get("enable") is not None and en["enable"][0] not in ("int",) and const(en["enable"])
+               for en in item.entities)
+
+
 def _classify_wiring(item):
     """the blueprint fails although the idealised private-network circuit built from the
     compiler's own logical edges passes: it is the known design defect S12 only if the
@@ -134,6 +152,8 @@ def check_items(prop, items, seed=0, do_search=True, per=6):
             it.status = "known:S17"
         elif ideal_ok is False and s19_region(it):
             it.status = "known:S19"
+        elif ideal_ok is False and s9_region(it):
+            it.status = "known:S9"
         elif ideal_ok and _classify_wiring(it):
             it.status = "known:S12"
         elif ideal_ok is False and s16:
